@@ -183,4 +183,19 @@ theorem typed_optional_struct_before_fix_witness :
       [[⟨none, 0, 0⟩, ⟨some 7, 0, 1⟩], [⟨none, 0, 0⟩, ⟨none, 0, 1⟩]] := by
   refine ⟨by decide, by decide, by decide⟩
 
+/-- Round-5 seed C03-5a (`writeRowsFuncOfMap` drops the optional wrapper for one value kind, there
+`[]byte`): MIRROR of the slip = `wrMap` over the bare leaf writer of the value column (maximum
+definition level 2) instead of `wrOptional 1 (wrLeaf 2)`. The non-zero value 7 of the first entry
+is written one definition level short, i.e. as a null, where the wrapper composition of the
+unmodified code (`tyN (.map .leaf .optLeaf)`, equal to `shred` by `typed_eq_reflect`) stores it at
+level 2; keys and the zero value agree. -/
+theorem typed_map_value_wrapper_dropped_witness :
+    wrMap 1 1 (wrLeaf 1) (wrLeaf 2) 0 0 0
+        [.struct [.list [.struct [.prim 1, .some (.prim 7)], .struct [.prim 2, .none]]]] =
+      [[⟨some 1, 0, 1⟩, ⟨some 2, 1, 1⟩], [⟨none, 0, 1⟩, ⟨none, 1, 1⟩]] ∧
+    tyN (.map .leaf .optLeaf) 0 0 0 0
+        [.struct [.list [.struct [.prim 1, .some (.prim 7)], .struct [.prim 2, .none]]]] =
+      [[⟨some 1, 0, 1⟩, ⟨some 2, 1, 1⟩], [⟨some 7, 0, 2⟩, ⟨none, 1, 1⟩]] := by
+  refine ⟨by decide, by decide⟩
+
 end PqModel.Props.C03
